@@ -620,6 +620,35 @@ def run_cli_honoured(tier, rnd, st, res, field='c14'):
                 req += f' reqerr={norm_error(error)} boost=0'
             lines.append(f'sym id={len(lines)} m={"/".join(rows)} {req}')
             meta.append('segno.cli.main(' + repr(argv[:-3] + ['<file>.txt', content]) + ')')
+    if field == 'c14':
+        # serialiser options given on the command line are honoured whatever the letter case of the output extension: the file must
+        # be the one the API writes with these options (the API's outputs are judged by C09 / C10)
+        with tempfile.TemporaryDirectory(prefix='c14-cli-') as tmp:
+            n = 0
+            for ext, kind in (('pbm', 'pbm'), ('PBM', 'pbm'), ('Pbm', 'pbm'), ('PNG', 'png'), ('Svg', 'svg'), ('XPM', 'xpm'), ('Txt', 'txt'), ('pNg', 'png')):
+                for flags, kw in ((['--scale', '3'], dict(scale=3)), (['--border', '1'], dict(border=1)), (['--scale', '2', '--border', '0'], dict(scale=2, border=0)),
+                                  (['--dark', 'navy', '--light', 'yellow'], dict(dark='navy', light='yellow'))):
+                    if kind == 'txt' and ('--scale' in flags or '--dark' in flags):
+                        continue
+                    if kind == 'pbm' and '--dark' in flags:
+                        continue
+                    n += 1
+                    out = os.path.join(tmp, f'o{n}.{ext}')
+                    argv = flags + ['--output', out, 'SEGNO 14']
+                    try:
+                        with contextlib.redirect_stderr(io.StringIO()), contextlib.redirect_stdout(io.StringIO()):
+                            rc = cli.main(argv)
+                    except SystemExit as ex:
+                        rc = ex.code
+                    res.evaluations += 1
+                    if rc != 0 or not os.path.exists(out):
+                        continue
+                    refp = os.path.join(tmp, f'ref{n}.{kind}')
+                    cli.make_code(cli.parse(['SEGNO 14'])).save(refp, **kw)      # the symbol the tool makes without options
+                    res.nontrivial.add(('cli-serializer-options', ext, tuple(flags)))
+                    if open(out, 'rb').read() != open(refp, 'rb').read():
+                        res.violations.append(dict(property_field='c14', verdict='cli-argument-not-honoured:file-differs-from-the-file-the-API-writes-with-these-options',
+                                                   call='segno.cli.main(' + repr(flags + ['--output', f'<file>.{ext}', 'SEGNO 14']) + ')', known_id=None))
     for call, o in zip(meta, run_lines_parallel(JUDGE, lines, jobs=2)):
         kv = parse_kv(o)
         bad = [f'{k}={kv.get(k)}' for k in (('c06', 'c04', 'c05') if field == 'c14' else (field,)) if kv.get(k, '-') not in ('ok', '-')]
